@@ -30,6 +30,7 @@ class TeeContext:
             Instance that can be read from.
         """
         if _vt.ENABLED: _vt.emit("tee_enter", tee=str(id(self)), cur=str(id(sys.stdout)), captured=str(id(self.stdout)))  # noqa: E501,E701
+        self.stdout = sys.stdout
         sys.stdout = self
         return self
 
